@@ -15,6 +15,18 @@ EXPL = ("R09.1 (A2) the subscriber table owns weak senders only. R09.2 (A3) Subs
         "order extending each publisher's order. Not decided: progress when a live subscriber's bounded mailbox stays full.")
 
 
+def fanout_alphabet():
+    """the iteration over strong senders (the live subscribers of this publication) is the fan-out proper; an iteration
+    over the table's weak senders is either the collection of the live ones (explicit loop form of values →
+    filter_map(upgrade) → collect) or, with the send in its body, the fused form of both"""
+    strong = lambda t: (t.get("callee") or "").endswith("Iterator::next") and "addr::sender::Sender<" in (t.get("destty") or "")
+    weak = lambda t: (t.get("callee") or "").endswith("Iterator::next") and "addr::weak_sender::WeakSender<" in (t.get("destty") or "") and "addr::sender::Sender<" not in (t.get("destty") or "")
+    push = lambda t: (t.get("callee") or "").endswith(("::push", "::push_back", "::insert")) and "addr::sender::Sender<" in " ".join(t.get("argtys") or []) and "WeakSender<" not in " ".join((t.get("argtys") or [])[:1])
+    return nfa.Alphabet(calls=[("send", nfa.callee_is("addr::sender::Sender::<M>::send", "addr::sender::Sender::<M>::force_send")), ("iternext", strong), ("witernext", weak),
+                               ("upgrade", nfa.callee_is("addr::weak_sender::WeakSender::<M>::upgrade")), ("keep", push)],
+                        adts={"core::option::Option": "Option", "core::result::Result": "Res"})
+
+
 class FanOut(nfa.Spec):
     init = ("s0", 0)
 
@@ -25,7 +37,28 @@ class FanOut(nfa.Spec):
         ph, n = st
         if ev in ("unwind", "cancel") or ev.startswith("pend:"):
             return st
+        # ---- iteration over the table's weak entries: n = 2 marks "live ones collected, nothing delivered yet"
+        if ev == "call:witernext":
+            if ph == "sending":
+                return nfa.Err("R09.3: next subscriber taken before the previous send completed")
+            if ph == "live":
+                return nfa.Err("R09.3: a live subscriber is skipped")
+            return ("witer", n)
+        if ev == "sw:Option::Some" and src == "witernext":
+            return ("witem", n)
+        if ev == "sw:Option::None" and src == "witernext":
+            return ("collected" if n == 2 else "done", n)
+        if ev == "sw:Option::Some" and src == "upgrade" and ph == "witem":
+            return ("live", n)
+        if ev == "call:keep" and ph == "live":
+            return ("witem", 2 if n == 0 else n)
+        if ev == "call:send" and ph == "live":
+            return ("sending", 1)
+        if ev == "ret" and ph in ("live", "witem"):
+            return nfa.Err("R09.3: the fan-out ends early (after a single subscriber)")
         if ev == "call:iternext":
+            if ph in ("witem", "live"):
+                return nfa.Err("R09.3: the collection of the live subscribers ends early")
             if ph == "sending":
                 return nfa.Err("R09.3: next subscriber taken before the previous send completed")
             if ph == "item":
@@ -46,9 +79,25 @@ class FanOut(nfa.Spec):
         if ev == "ret":
             if ph in ("failed", "sent", "item", "sending"):
                 return nfa.Err("R09.3: the fan-out ends early (after a %s subscriber)" % ("failing" if ph == "failed" else "single"))
-            if ph == "s0":
+            if ph == "s0" or ph == "collected":
                 return nfa.Err("R09.3: returns without fan-out")
         return st
+
+
+def _keeps_live(ctx, fx, c, depth):
+    """the predicate is `|_, s| s.upgrade().is_some()`, possibly through a named helper (`is_live(s)`)"""
+    cb = ctx.body(fx, c)
+    calls = [x for _, x in cb.normal_calls()]
+    names = [(x.get("callee") or "").split("::")[-1] for x in calls]
+    nots = sum(1 for blk in cb.blocks for st in blk["s"] if st["k"] == "assign" and st["r"]["k"] == "un" and st["r"].get("op") == "Not")
+    if names == ["upgrade", "is_some"]:
+        return nots == 0
+    if names == ["upgrade", "is_none"]:
+        return nots == 1
+    if len(calls) == 1 and depth > 0 and nots == 0:
+        g = fx.callee_fn(calls[0])
+        return g is not None and _keeps_live(ctx, fx, g, depth - 1)
+    return False
 
 
 def run(ctx):
@@ -184,7 +233,7 @@ def run_cfg(ctx, fx):
     if ctx.require(f is not None, "R09.3", "publish-handler", "publish handler not found"):
         co = [c for c in fx.children_of(f["def"]) if c["kind"] == "coroutine"][0]
         b = ctx.body(fx, co)
-        A = nfa.Alphabet(calls=[("send", nfa.callee_is("addr::sender::Sender::<M>::send", "addr::sender::Sender::<M>::force_send")), ("iternext", nfa.callee_ends("Iterator::next"))], adts={"core::option::Option": "Option", "core::result::Result": "Res"})
+        A = fanout_alphabet()
         n = nfa.build(b, A, fx, depth=2)  # the fan-out may sit in a method the handler awaits (`self.distribute(topic).await`)
         viols, ps = nfa.check(n, FanOut())
         ctx.count_nfa(n.stats(), ps)
@@ -232,6 +281,26 @@ def run_cfg(ctx, fx):
                 extra = [nm for nm in names if nm not in ("collect", "filter_map", "values", "iter", "into_iter", "deref")]
                 ok = len(fm) == 1 and fm[0]["args"][1].get("fn") == "addr::weak_sender::WeakSender::<M>::upgrade" and "values" in names and not extra
                 ctx.require(ok, "R09.3", "subscriber-set", "the subscribers of a publication must be the live entries of the table: values → filter_map(upgrade) → collect, got %s" % names, fn=co_["def"], site=t["l"], detail=names)
+        # explicit loop form: `for w in self.subscribers.values() { if let Some(s) = w.upgrade() { live.push(s) } }` (that every
+        # upgraded entry is kept is the FanOut monitor's part); fused form: the send sits in that loop
+        A_ = fanout_alphabet()
+        for co_, b_ in fam_bodies:
+          for bi, t in b_.normal_calls():
+            if A_.calls[4][1](t) or (A_.calls[0][1](t) and any(o.kind == "call" and A_.calls[3][1](b_.call_at(o)) for o in b_.origins(t["args"][0]))):
+                what = t["args"][-1] if A_.calls[4][1](t) else t["args"][0]
+                ups = [b_.call_at(o) for o in b_.origins(what) if o.kind == "call"]
+                ok = bool(ups) and all(A_.calls[3][1](u) for u in ups) and len(ups) == len(b_.origins(what))
+                names = []
+                for u in ups if ok else []:
+                    its = [b_.call_at(o) for o in b_.origins(u["args"][0]) if o.kind == "call"]
+                    ok = ok and bool(its) and all(A_.calls[2][1](i) for i in its)
+                    for i in its if ok else []:
+                        ch = chain(b_, i["args"][0])
+                        names = [x["callee"].split("::")[-1] for x in ch]
+                        extra = [nm for nm in names if nm not in ("values", "iter", "into_iter", "deref")]
+                        ok = ok and "values" in names and not extra
+                n_sets += 1
+                ctx.require(ok, "R09.3", "subscriber-set", "the subscribers of a publication must be the live entries of the table: each entry of values() upgraded and kept, got %s" % names, fn=co_["def"], site=t["l"], detail=names)
         b = fam_bodies[0][1]
         ctx.floor("R09.3", "collections of the live subscribers in the publish handler", n_sets, 1)
     # R09.5 who touches the table; pruning keeps exactly the live entries
@@ -258,11 +327,7 @@ def run_cfg(ctx, fx):
                         cdef = gb.blocks[o.site[0]]["s"][o.site[1]]["r"].get("def")
                         c = fx.fn(cdef)
                         if c:
-                            cb = ctx.body(fx, c)
-                            calls = [x for _, x in cb.normal_calls()]
-                            names = [(x.get("callee") or "").split("::")[-1] for x in calls]
-                            nots = any(st["k"] == "assign" and st["r"]["k"] == "un" and st["r"].get("op") == "Not" for blk in cb.blocks for st in blk["s"])
-                            okp = names == ["upgrade", "is_some"] and not nots
+                            okp = _keeps_live(ctx, fx, c, 2)
                 ctx.require(okp, "R09.5", "prune-keeps-live", "pruning must keep exactly the subscribers that can still be upgraded", fn=g["def"], site=t["l"])
     # R09.4 entry points
     entries = {
